@@ -20,10 +20,12 @@ SIZES = [(1, 2), (2, 2), (2, 3), (3, 2), (3, 3), (4, 4)]
 
 
 # ---------------------------------------------------------------- trees
-def build_by_history(rng, env, ml, mi):
+def build_by_history(rng, env, ml, mi, centred=False):
     t = env.new()
     u = rng.choice([6, 10, 16, 30])
     keys = list(range(u))
+    if centred:
+        keys = [k - u // 2 for k in keys]       # negative and positive keys: 0 sits in the middle (a falsy separator)
     rng.shuffle(keys)
     nins = rng.randint(1, u)
     for k in keys[:nins]:
